@@ -454,45 +454,43 @@ class ExcFlow:
 
     def _nonempty_import_name(self, fi, call):
         """__import__(x) raises ValueError only for the empty name.  True when
-        an earlier statement of the function raises on `'' in x.split('.')`
-        (or on `not x`), so that the name reaching the call is not empty."""
+        every path to the call has established `'' not in x.split('.')` (or
+        that x is truthy): conditions that hold on all paths, read off the
+        CFG, so and/or/not and either branch polarity are covered."""
         if not call.args:
             return False
+        from . import cfg as cfgmod
         arg = src(call.args[0])
-        p = call
-        before = []
-        while p is not None and p is not fi.node:
-            par = getattr(p, "_parent", None)
-            if par is None:
-                break
-            for fld in ("body", "orelse", "finalbody"):
-                blk = getattr(par, fld, None)
-                if isinstance(blk, list) and p in blk:
-                    before.extend(blk[:blk.index(p)])
-            p = par
         splits = {arg}
-        for st in before:
-            if isinstance(st, ast.Assign) and isinstance(
-                    st.value, ast.Call) and isinstance(
-                    st.value.func, ast.Attribute) and st.value.func.attr \
-                    == "split" and src(st.value.func.value) == arg:
-                for t in st.targets:
+        for n in walk_shallow(fi.node):
+            if isinstance(n, ast.Assign) and isinstance(
+                    n.value, ast.Call) and isinstance(
+                    n.value.func, ast.Attribute) and n.value.func.attr \
+                    == "split" and src(n.value.func.value) == arg:
+                for t in n.targets:
                     splits.add(src(t))
-        for st in before:
-            if not (isinstance(st, ast.If) and any(
-                    isinstance(x, ast.Raise) for x in st.body)):
-                continue
-            t = st.test
-            if isinstance(t, ast.Compare) and len(t.ops) == 1 and isinstance(
-                    t.ops[0], ast.In) and isinstance(t.left, ast.Constant) \
-                    and t.left.value == "" and (
-                        src(t.comparators[0]) in splits
-                        or src(t.comparators[0]).startswith(arg + ".split(")):
-                return True
-            if isinstance(t, ast.UnaryOp) and isinstance(t.op, ast.Not) \
-                    and src(t.operand) == arg:
-                return True
-        return False
+        try:
+            g = cfgmod.CFG(fi.node)
+        except Exception:
+            return False
+        for cn in g.node_containing(call):
+            ok = False
+            for t, pol in g.path_conditions(cn):
+                a = t.ast
+                if isinstance(a, ast.Compare) and len(a.ops) == 1 \
+                        and isinstance(a.left, ast.Constant) \
+                        and a.left.value == "" and (
+                            src(a.comparators[0]) in splits
+                            or src(a.comparators[0]).startswith(
+                                arg + ".split(")):
+                    if (isinstance(a.ops[0], ast.In) and not pol) or (
+                            isinstance(a.ops[0], ast.NotIn) and pol):
+                        ok = True
+                if pol and src(a) == arg:
+                    ok = True
+            if not ok:
+                return False
+        return True
 
     def _patched_by_callee(self, call, excname, depth, fi=None):
         """Attributes of the caught exception assigned by a helper that the
